@@ -57,7 +57,9 @@ def run(ctx: Ctx) -> Result:
         B.build(f'BUILD2 ptlc_lock {rk.hex()} {fk.hex()} {Tp.hex()} {deadline} {fl}', hexof(locks['ptlc_tweak']))
         if any(isinstance(l, str) for l in locks.values()):
             B.viol('a lock builder raised', inp, 'locks', {k: v for k, v in locks.items() if isinstance(v, str)}); continue
-        def W(seed, preimage):
+        # the signer may hold the same sigfields in another insertion order than the verifier: the message is in index order
+        sfw = dict(reversed(list(sf.items()))) if it % 3 == 1 else sf
+        def W(seed, preimage, sf=sfw):
             return {'htlc': try_build(T.make_htlc_witness, seed, preimage, sf, flags), 'htlc2': try_build(T.make_htlc2_witness, seed, preimage, sf, flags),
                     'ptlc': try_build(T.make_ptlc_witness, seed, sf, None, flags), 'ptlc_tweak': try_build(T.make_ptlc_witness, seed, sf, twc, flags),
                     'ptlc_refund': try_build(T.make_ptlc_refund_witness, seed, sf, flags)}
@@ -113,6 +115,23 @@ def run(ctx: Ctx) -> Result:
                 res.note_case(('per-run-slack', lk, thr_, lead, rs))
                 if got2 != want2:
                     B.viol(f'refund witness vs {lk} lock as one script, ts_threshold = {thr_} passed for this run, t - now = {lead}', {**inp, 'lock': lk, 'cfg': cfg2.line(), 'cache': vmrun.cache_str(cache2, False), 'scripts': [wr_.bytes.hex(), l.bytes.hex()]}, want2, o2[:80])
+            # "once the execution timestamp reaches creation time + timeout": a verifier that passes no timestamp gets the clock of
+            # *that* run - also when it hands the same context dict (or none) to an earlier run before the deadline
+            if it % 4 == 0 and timeout >= 1:
+                wr_ = (refund['ptlc_refund'] if wk_.startswith('ptlc') else refund[wk_])
+                ctxd = dict(sf)                     # no 'timestamp': the run's own clock applies
+                hist = []
+                for now_ in (deadline - 1, deadline, deadline + 7):
+                    if now_ < 0: continue
+                    with vmrun.Env(vmrun.Cfg(now=now_)) as env:
+                        try: got_ = env.F.run_auth_scripts([wr_.bytes, l.bytes], ctxd)
+                        except BaseException as e: got_ = 'RAISED:' + type(e).__name__
+                    hist.append((now_ - deadline, got_))
+                    res.note_case(('clock-history', lk, now_ - deadline, rs))
+                    if got_ is not (now_ >= deadline):
+                        B.viol(f'refund witness vs {lk} lock, no timestamp supplied, the same context dict reused over runs at clock - deadline = {[h[0] for h in hist]}',
+                               {**inp, 'lock': lk, 'scripts': [wr_.bytes.hex(), l.bytes.hex()], 'context_after': sorted(str(k) for k in ctxd)}, now_ >= deadline, hist)
+                        break
             # cross-pairings at a neutral time
             cache = {**sf, 'timestamp': B.now}
             for wk2, w in stranger.items():          # "any other key is rejected": every witness kind made by a stranger, against every lock kind
